@@ -9,8 +9,10 @@ import json, os, shutil, subprocess, sys
 
 pid, k = sys.argv[1], sys.argv[2]
 checks = [pid] + sys.argv[3:]
-src = "/tmp/seed_%s/%s" % (pid, k)
-wt = "/tmp/wt_%s" % pid
+rnd = os.environ.get("SEED_ROUND", "1")
+src = ("/tmp/seed_%s/%s" if rnd == "1" else "/tmp/seed" + rnd + "_%s/%s") % (pid, k)
+wt = ("/tmp/wt_%s" if rnd == "1" else "/tmp/wt" + rnd + "_%s") % pid
+tag = k if rnd == "1" else "r%s-%s" % (rnd, k)
 env = dict(os.environ, VERIF_REPO=wt, PYTHONPATH="/tmp/sk_compat")
 
 
@@ -40,8 +42,8 @@ res["confirmed"] = confirmed
 # run checks on /repo
 assert sh("git -C /repo status --porcelain").stdout.strip() == "", "repo dirty"
 ap = sh("git -C /repo apply %s/patch.diff" % src)
-if ap.returncode != 0 and os.path.exists("/verif/seeded/%s-%s/patch.rebased.diff" % (pid, k)):
-    ap = sh("git -C /repo apply /verif/seeded/%s-%s/patch.rebased.diff" % (pid, k))
+if ap.returncode != 0 and os.path.exists("/verif/seeded/%s-%s/patch.rebased.diff" % (pid, tag)):
+    ap = sh("git -C /repo apply /verif/seeded/%s-%s/patch.rebased.diff" % (pid, tag))
 res["apply_repo"] = ap.returncode
 if ap.returncode != 0:
     print("   patch does not apply to /repo HEAD (repo moved by fix: commits); put a rebased patch at "
@@ -58,14 +60,14 @@ if ap.returncode == 0:
 sh("git -C /repo checkout -- . && git -C /repo clean -fdq sktime")
 sh("find /verif/replays -name '*.json' -delete")
 res["detected_by"] = det
-dst = "/verif/seeded/%s-%s" % (pid, k)
+dst = "/verif/seeded/%s-%s" % (pid, tag)
 os.makedirs(dst, exist_ok=True)
 shutil.copy(src + "/patch.diff", dst)
 shutil.copy(src + "/demo.py", dst)
 meta["confirmation"] = res
 meta["what_i_ran"] = "demo.py in scratch worktree clean/patched + pinned suite; then patch applied to /repo, ./check %s --tier quick, reverted" % " ".join(checks)
 json.dump(meta, open(dst + "/meta.json", "w"), indent=1)
-print(pid, k, "confirmed" if confirmed else "NOT-CONFIRMED %s" % res, "|",
+print(pid, tag, "confirmed" if confirmed else "NOT-CONFIRMED %s" % res, "|",
       {c: (d["rc"], d["violations"]) for c, d in det.items()}, "|", meta.get("title", "")[:70])
 for c, d in det.items():
     if d["rc"] != 1:
